@@ -114,6 +114,7 @@ pub fn run_plan<V: Variant>(plan: &WorldPlan, keys: Keys<V>, compare_sequential:
     }
     st.steps += sched.steps;
     st.add("sched.switches", sched.switches);
+    st.add("sched.lock_handoffs", sched.lock_handoffs);
     if sched.switches > 0 {
         st.interleavings.insert(sched.trace_hash);
     }
@@ -472,6 +473,7 @@ fn run_mixed(plan: &MixedPlan, k512: K512, k1024: K1024) -> (Option<(String, Str
     }
     st.steps += sched.steps;
     st.add("sched.switches", sched.switches);
+    st.add("sched.lock_handoffs", sched.lock_handoffs);
     if sched.switches > 0 {
         st.interleavings.insert(sched.trace_hash);
     }
@@ -594,11 +596,16 @@ pub fn deep_plan(rng: &mut Prng, pool: &KeyPool<V512>) -> (WorldPlan, Vec<usize>
     let nthreads = 2 + rng.usize_below(5);
     let mut threads = Vec::new();
     let mut ops_total = 0u64;
+    // in half of the runs every thread has a home key that it uses for most of its operations (a
+    // server thread per tenant): "my key is still the cached one" is then the common case, and what a
+    // schedule has to produce is another thread's write between this thread's check and its use
+    let affine = rng.chance(1, 2);
     for _ in 0..nthreads {
         let nops = 10 + rng.usize_below(40);
         let mut ops = Vec::new();
+        let home = rng.usize_below(nkeys);
         for _ in 0..nops {
-            let k = rng.usize_below(nkeys);
+            let k = if affine && rng.chance(5, 6) { home } else { rng.usize_below(nkeys) };
             if rng.chance(1, 8) {
                 ops.push(Op::Sign { key: k, msg: world::message(rng), stream: rng.next_u64(), mode: Some(Mode::Uniform), norm_rejects: 0, compress_fails: 0 });
                 ops_total += 8000;
@@ -627,8 +634,8 @@ pub fn deep_plan(rng: &mut Prng, pool: &KeyPool<V512>) -> (WorldPlan, Vec<usize>
             switch_exp: Some(k),
             boundary: rng.below(257) as u32,
             threads,
-            // a third of the deep runs with aligned starts (operations beginning side by side)
-            align: if rng.chance(1, 3) { Some((*rng.pick(&[16u32, 64, 256]), *rng.pick(&[1u32, 2, 3]))) } else { None },
+            // a sixth of the deep runs with aligned starts (operations beginning side by side)
+            align: if rng.chance(1, 6) { Some((*rng.pick(&[16u32, 64, 256]), *rng.pick(&[1u32, 2, 3]))) } else { None },
         },
         used,
     )
@@ -674,8 +681,8 @@ fn deep_run(seed: u64, run: u64, pool: &KeyPool<V512>) -> RunOutcome {
 pub fn deepruns_main(tier: Tier, seed: u64, outfile: &str) -> i32 {
     let w = report::workers();
     let (runs, nkeys) = match tier {
-        Tier::Quick => (160u64, 24usize),
-        Tier::Thorough => (3000u64, 40usize),
+        Tier::Quick => (480u64, 24usize),
+        Tier::Thorough => (6000u64, 40usize),
     };
     let pool: KeyPool<V512> = KeyPool::build(report::run_seed(seed, "deep-pool", 0), nkeys, 3, w);
     if pool.keys.len() < nkeys || pool.keys.iter().any(|k| k.sigs.is_empty()) {
